@@ -8,7 +8,7 @@ OUT=$PWD/.build/cover; rm -rf "$OUT"; mkdir -p "$OUT"
 for c in ${1:-C01 C02 C03 C04 C05 C06 C07 C08 C09 C10 C11 C12 C13 C14 C15 C16 C17 C18 C19 C20}; do
   d=$OUT/data-$c; mkdir -p $d
   VF_COVER=$d COVERAGE_CORE=sysmon VF_SHARD_TIMEOUT_SCALE=4 ./check $c quick > $OUT/$c.log 2>&1
-  (cd $d && /venv/bin/python -m coverage combine -q --keep --data-file=$OUT/$c.cov . >/dev/null 2>&1)
+  /venv/bin/python -m coverage combine -q --keep --data-file=$OUT/$c.cov $d/.coverage.* >/dev/null 2>&1
   /venv/bin/python -m coverage report --data-file=$OUT/$c.cov -m --include="/repo/cotengra/*" > $OUT/$c.txt 2>&1
   echo "$c: $(tail -1 $OUT/$c.txt)"
 done
